@@ -77,4 +77,14 @@ CLAIMS = {
         "note": TRUST,
         "technique": "MIR dominance/value-origin rules, sibling cross-check of the three rebuild variants, trait-impl inventory",
     },
+    "C15": {
+        "text": "Partial, structural: decides 'the writer's and reader's tables agree' from the string constants in MIR (every option keyword and command head emitted by an AST printer is a string the parser tests; every option keyword the parser accepts is emitted by some AST printer or listed as sugar) and that the printer of each of the 12 AST node types reads every field of every variant except spans and one listed field (Sort.unionable, no surface syntax). Found two genuine round-trip defects: Variant printing dropped :unextractable (F7) and rewrite/birewrite printing dropped :name (F8); both fixed. Does NOT decide round-trip of concrete literals/strings (escaping, floats) nor evaluation of extracted terms.",
+        "note": TRUST + " A field that is read by the printer is assumed to be printed faithfully.",
+        "technique": "table agreement over MIR string constants + per-variant field-read coverage of the printers",
+    },
+    "C19": {
+        "text": "Partial, structural: decides on MIR the ordering/pairing facts the concurrency code's safety comments rest on: expect_one dominates enqueue and the lifetime transmute has one caller; the job closure runs the user callback only under catch_unwind, records a panic on the Err arm and calls complete_one on every normal path; enqueue runs the job inline when the send fails; scope() runs the root callback under catch_unwind, always waits (complete_root_and_wait dominates every return/resume), re-raises a worker panic; complete_root_and_wait waits unless complete_one returned true; the done signal is sent only under completed == expected; MutexWriter is built only after the token CAS succeeded and readers were waited for, MutexReader only on the ReadOk arm, the UnsafeCell is dereferenced only by the guards/read(), the writer's drop publishes ReadOk before notifying; ConcurrentVec writes slots under the write lock before publishing head; ParallelVecWriter writes only after reserve_space. Does NOT decide deadlock freedom, lost wake-ups or linearizability.",
+        "note": TRUST,
+        "technique": "MIR dominance / must-pass-through / guard rules, who-may-call and who-may-construct inventories",
+    },
 }
